@@ -580,6 +580,23 @@ func TestC20(t *testing.T) {
 			run.Sample(cs)
 		}
 	}
+	// (bubble scenarios that look at every goroutine of the process run before any real-socket scenario)
+	for i := 0; i < run.Pick(2, 20); i++ {
+		id := fmt.Sprintf("only-pushpull/%d", i)
+		if !run.Mine(i+3) || !run.Want(id) {
+			continue
+		}
+		run.Journal(id, "")
+		var res []*c01Result
+		err := Bubble(t, func() { res = runC20OnlyPushPull(run, run.Seed()*71+int64(i), i%2 == 1) })
+		if err != nil {
+			res = append(res, &c01Result{"C20/bubble", err.Error()})
+		}
+		run.Eval(1)
+		for _, r := range res {
+			run.Violation(id, r.Key, r.What, map[string]any{"with_peer": i%2 == 1})
+		}
+	}
 	for i := 0; i < run.Pick(8, 400); i++ {
 		id := fmt.Sprintf("blackhole/%d", i)
 		if !run.Mine(i) || !run.Want(id) {
@@ -636,7 +653,7 @@ func TestC20(t *testing.T) {
 		}
 	}
 	if !run.Replaying() {
-		run.Require("blackhole|health=0|hung=false", "blackhole|health=1|hung=true", "real-stalled-peer|Leave(300ms)", "last-standing|Leave|peers=1", "last-standing|UpdateNode|peers=1", "real-stalled-delegate|Shutdown")
+		run.Require("only-pushpull|peer=false", "only-pushpull|peer=true", "blackhole|health=0|hung=false", "blackhole|health=1|hung=true", "real-stalled-peer|Leave(300ms)", "last-standing|Leave|peers=1", "last-standing|UpdateNode|peers=1", "real-stalled-delegate|Shutdown")
 	}
 	nr := run.Pick(32, 4000)
 	for i := 0; i < nr; i++ {
